@@ -292,6 +292,21 @@ func (c *v13Conn) WriteTo(p []byte, addr net.Addr) (int, error) {
 	return len(p), nil
 }
 
+// v13ConnUDP is the same socket, but "UDP-like" (SyscallConn / SetReadBuffer / SetWriteBuffer): the package
+// then returns the UDP variant of its wrapper (obfsPacketConnUDP), as it does for a real *net.UDPConn.
+type v13ConnUDP struct{ *v13Conn }
+
+func (v13ConnUDP) SyscallConn() (syscall.RawConn, error) { return nil, errors.ErrUnsupported }
+func (v13ConnUDP) SetReadBuffer(int) error               { return nil }
+func (v13ConnUDP) SetWriteBuffer(int) error              { return nil }
+
+func v13Inner(c *v13Conn, udpLike bool) net.PacketConn {
+	if udpLike {
+		return v13ConnUDP{c}
+	}
+	return c
+}
+
 func (c *v13Conn) push(p v13Pkt) {
 	c.mu.Lock()
 	c.inbox = append(c.inbox, p)
@@ -403,13 +418,18 @@ func TestVerifC13_WireRoundTripJunk(t *testing.T) {
 		key := v13GenKey(rt)
 		mk := func(name string, host int) *v13End {
 			f := &v13Conn{local: v13Addr(host, 4000+host)}
-			w, err := WrapPacketConnSalamander(f, append([]byte(nil), key...))
+			udpLike := rapid.Bool().Draw(rt, "udpLikeInner")
+			if udpLike {
+				name += "(udp)"
+			}
+			w, err := WrapPacketConnSalamander(v13Inner(f, udpLike), append([]byte(nil), key...))
 			if err != nil || w == nil {
 				rt.Fatalf("C13: key of %d bytes refused: %v", len(key), err)
 			}
 			return &v13End{name: name, fake: f, w: w}
 		}
 		X, Y := mk("X", 1), mk("Y", 2)
+		udpN := strings.Count(X.name+Y.name, "(udp)")
 		X.fake.deliver = func(p v13Pkt) { Y.fake.push(p) }
 		Y.fake.deliver = func(p v13Pkt) { X.fake.push(p) }
 
@@ -437,6 +457,7 @@ func TestVerifC13_WireRoundTripJunk(t *testing.T) {
 			if len(key) == 4 {
 				cl = append(cl, "key=4")
 			}
+			cl = append(cl, fmt.Sprintf("udp-like-ends=%d", udpN))
 			nt := validN > 0 && (maxLen >= 33 || junkN > 0)
 			st.Case(nt, fmt.Sprintf("k%d|%s", len(key), strings.Join(trace, ",")), cl, func() string {
 				return fmt.Sprintf("key=%d bytes; %s", len(key), strings.Join(trace, " "))
@@ -797,11 +818,12 @@ func TestVerifC13_Concurrent(t *testing.T) {
 		fP := &v13Conn{local: v13Addr(2, 4002), ch: make(chan v13Pkt, total)}
 		fS.deliver = func(p v13Pkt) { fP.ch <- p }
 		fP.deliver = func(p v13Pkt) { fS.ch <- p }
-		S, err := WrapPacketConnSalamander(fS, key)
+		udpS, udpP := rapid.Bool().Draw(rt, "udpLikeS"), rapid.Bool().Draw(rt, "udpLikeP")
+		S, err := WrapPacketConnSalamander(v13Inner(fS, udpS), key)
 		if err != nil {
 			rt.Fatalf("C13: key refused: %v", err)
 		}
-		P, err := WrapPacketConnSalamander(fP, key)
+		P, err := WrapPacketConnSalamander(v13Inner(fP, udpP), key)
 		if err != nil {
 			rt.Fatalf("C13: key refused: %v", err)
 		}
@@ -908,9 +930,9 @@ func TestVerifC13_Concurrent(t *testing.T) {
 				}
 			}
 		}
-		desc := fmt.Sprintf("key=%d bytes writers=%d readers=%d perWriter=%d peerWriters=%d peerReaders=%d injected=%d (junk %d, zero %d) inner send refusals planned=%d happened=%d, WriteTo errors=%d", len(key), nW, nR, per, nPW, nPR, len(injs), junkN, zeroN, planned, fS.refused, failedWrites)
+		desc := fmt.Sprintf("udp-like inner (S %v, peer %v) key=%d bytes writers=%d readers=%d perWriter=%d peerWriters=%d peerReaders=%d injected=%d (junk %d, zero %d) inner send refusals planned=%d happened=%d, WriteTo errors=%d", udpS, udpP, len(key), nW, nR, per, nPW, nPR, len(injs), junkN, zeroN, planned, fS.refused, failedWrites)
 		kh := v13Hash(key, make([]byte, 8))
-		st.Case(true, fmt.Sprintf("%d/%d/%d/%d/%d/%x", nW, nR, per, nPW, len(injs), kh[:4]), []string{fmt.Sprintf("writers=%d", nW), fmt.Sprintf("readers=%d", nR), fmt.Sprintf("sendFailures=%d", failMode)}, func() string { return desc })
+		st.Case(true, fmt.Sprintf("%d/%d/%d/%d/%d/%x", nW, nR, per, nPW, len(injs), kh[:4]), []string{fmt.Sprintf("writers=%d", nW), fmt.Sprintf("readers=%d", nR), fmt.Sprintf("sendFailures=%d", failMode), fmt.Sprintf("udpLikeS=%v", udpS)}, func() string { return desc })
 		if len(fails) > 0 {
 			rt.Fatalf("C13 concurrent: %s; %s", strings.Join(fails, "; "), desc)
 		}
